@@ -243,9 +243,9 @@ CLAIMS = [
                       "owned parentheses of existential parameters are printed; a constructor name never touches a comment. Each rule "
                       "fired on a confirmed defect of the pinned tree (F14, F15, F17, F18; repaired) or a confirmed seeded change.",
         "level_note": "NOT decided: that formatted output re-parses to the same term for every source (child-position requirements, punning, "
-                      "telescope merging, directive nesting are not analysed). Some parseable sources still have no admissible layout: after "
-                      "F14 they are reported as an error and left unchanged, which the property's first sentence still counts against the "
-                      "formatter (documented in DESIGN.md; not detectable by these rules). F32 (`1e999` printed as `inf`), F33 (metadata strings "
+                      "telescope merging, directive nesting are not analysed). The known parseable-but-unformattable shape (a comment in front of a "
+                      "block construct on its line) is repaired (F70) and has an agreement rule (starts_own_line = the printer arms that call "
+                      "block_like). F32 (`1e999` printed as `inf`), F33 (metadata strings "
                       "printed with Debug) and F34 (unbounded indent directive) were reported by seeding agents on the unchanged tree and "
                       "repaired; the literal and directive rules now cover floats, metadata strings and the indent bound. Round 3: the printer's "
                       "pattern level at the binder of do / fix / param equals the grammar's (read from parser.lalrpop); the verbatim "
